@@ -486,9 +486,6 @@ pub(crate) fn co_cancel_data(co: &CoroutineImpl) -> &'static Cancel {
     &local.get_co().inner.cancel
 }
 
-// windows use delay drop instead
-#[cfg(unix)]
-#[cfg(feature = "io_cancel")]
 pub(crate) fn co_get_handle(co: &CoroutineImpl) -> Coroutine {
     let local = unsafe { &*get_co_local(co) };
     local.get_co().clone()
